@@ -28,7 +28,7 @@ import (
 )
 
 type c08op struct {
-	Op string `json:"op"` // track tracknx validate active advance sweep lookup count
+	Op string `json:"op"` // track tracknx validate validate_stale active advance sweep lookup count
 	S  int    `json:"s"`  // secret id
 	T  int    `json:"t"`  // transport: 0 min 1 obfs4 2 prefix 3 dtls 4 (not enabled)
 	P  int    `json:"p"`  // phantom id (even: IPv4, odd: IPv6)
@@ -169,6 +169,14 @@ func c08run(c c08case) (res c08res) {
 					ob.Ret = 1
 				}
 			case "validate":
+				// the ingest that tracked the registration validates that same object
+				d := c08reg(o.S, o.T, o.P)
+				if tracked := rd.RegistrationExists(d); tracked != nil {
+					d = tracked
+				}
+				rm.AddRegistration(d)
+			case "validate_stale":
+				// an ingest whose own object is not (or no longer) the tracked one
 				rm.AddRegistration(c08reg(o.S, o.T, o.P))
 			case "active":
 				// the station passes the registration object its lookup returned
